@@ -60,7 +60,7 @@ type Outcome struct {
 	Violations   []Violation           `json:"violations,omitempty"`
 	Inconclusive string                `json:"inconclusive,omitempty"`
 	Fault        string                `json:"fault_fired"`
-	Calls        [NumCB]int64          `json:"callbacks"`
+	Calls        [NumCB + 1]int64      `json:"callbacks"`
 	Batches      int64                 `json:"batches"`
 	GatesUsed    int64                 `json:"gates_used"`
 	Forced       int64                 `json:"steps_forced"`
@@ -120,7 +120,7 @@ type driver struct {
 	sc  *neutrino.UtxoScanner
 
 	mu        sync.Mutex
-	calls     [NumCB]int64
+	calls     [NumCB + 1]int64
 	total     int64
 	seenH     map[[2]int32]bool
 	steps     []*stepState
@@ -173,7 +173,9 @@ func (d *driver) onGate(kind int, h int32) error {
 		return nil
 	}
 	d.calls[kind]++
-	d.total++
+	if kind != CBestPost {
+		d.total++
+	}
 	n := d.calls[kind]
 	d.lastKind, d.lastH = kind, h
 	label := CBName[kind]
